@@ -714,8 +714,9 @@ def jobs(tier, seed):
             for sh in dag_shapes(4, order):
                 specs.append(("closure", "dag4", sh, (0, 1, 2), None, (0,)))
                 specs.append(("bounded", "dag4", sh, (0, 1), 6, (0, 1)))
-            for sh in dag_shapes(5, order):
-                specs.append(("closure", "dag5", sh, (0, 1), None, (0,)))
+            if order == "asc":  # the five-node shapes in one child order (the other order is covered up to four nodes)
+                for sh in dag_shapes(5, order):
+                    specs.append(("closure", "dag5", sh, (0, 1), None, (0,)))
         for name, sh in SPECIAL_SHAPES.items():
             d = (0, 1, 2) if name != "operators" else (1, 2, 4)
             specs.append(("closure", name, sh, d[:2], None, (0,)))
